@@ -36,7 +36,7 @@ IsRef(v) == v < 0
 Item(k, v) == [key |-> k, val |-> v, tg |-> 0]
 ItemT(k, v, t) == [key |-> k, val |-> v, tg |-> t]   \* t: bitmask of tags on the argument
 Obj(k, fn, items) == [k |-> k, fn |-> fn, items |-> items]
-IsBuildableKind(k) == k \in {"config", "partial"}
+IsBuildableKind(k) == k \in {"config", "partial", "argfactory"}
 
 Refs(o) == SelectSeq([i \in 1..Len(o.items) |-> o.items[i].val], IsRef)
 Children(h, i) == [j \in 1..Len(Refs(h[i])) |-> -Refs(h[i])[j]]
